@@ -536,6 +536,70 @@ pub fn oracle_c06(rng: &mut Rng, tier: &str) -> Report {
         }
         rep.stats.insert(format!("corpus_splits:{}", name), k);
     }
+    // very long tokens (just above every power of two from 64 KiB to 32 MiB) in each kind of
+    // line, and very long runs of terminator bytes: a long line is still one line, the lines
+    // after it are still parsed, and nothing recurses per byte
+    let exps: Vec<u32> = if th { (16..=26).collect() } else { vec![16, 20, 23, 25] };
+    for e in exps {
+        let len = (1usize << e) + 1;
+        let big = "x".repeat(len);
+        for (kind, a) in [
+            ("field obfuscated name", format!("o.A -> a:\n    int f -> {}", big)),
+            ("class original name", format!("o.{} -> a:", big)),
+            ("header value", format!("# key: {}", big)),
+            ("method arguments", format!("o.A -> a:\n    1:2:void m({}) -> b", big)),
+            ("unterminated sourceFile header", format!("# {{\"id\":\"sourceFile\",\"fileName\":\"{}", big)),
+        ] {
+            if e > 23 && kind != "field obfuscated name" && kind != "header value" {
+                continue;
+            }
+            let b = b"o.B -> b:\n    void m() -> k\n# tail: v\n";
+            let before = rep.failures.len();
+            check_resync(&mut rep, a.as_bytes(), b, b'\n');
+            check_resync(&mut rep, a.as_bytes(), b, b'\r');
+            for f in rep.failures.iter_mut().skip(before) {
+                // (the generic replay would embed the whole input)
+                f.ops = vec![format!("# A = a mapping whose last line has a {}-byte token ({}), B = {:?}", len, kind, String::from_utf8_lossy(b))];
+                f.detail.truncate(300);
+            }
+            rep.count("long_token_lines");
+        }
+    }
+    for run in if th { vec![1000usize, 30_000, 100_000, 1 << 20, 1 << 24] } else { vec![1000usize, 30_000, 100_000, 1 << 20] } {
+        for t in [&b"\n"[..], b"\r", b"\r\n", b"\n\r"] {
+            let mut a = b"o.A -> a:".to_vec();
+            for _ in 0..run / t.len() {
+                a.extend_from_slice(t);
+            }
+            a.extend_from_slice(b"    int f -> g");
+            let b = b"o.B -> b:\n";
+            let before = rep.failures.len();
+            // on a thread with the default 2 MiB stack (what a caller's worker thread has)
+            let (a2, b2) = (a.clone(), b.to_vec());
+            let h = std::thread::Builder::new().stack_size(2 << 20).spawn(move || {
+                let mut r = Report::new();
+                check_resync(&mut r, &a2, &b2, b'\n');
+                let n = ProguardMapping::new(&a2).iter().filter(|x| x.is_ok()).count();
+                (r, n)
+            }).unwrap();
+            match h.join() {
+                Ok((r, n)) => {
+                    rep.checks += r.checks;
+                    rep.nontrivial += r.nontrivial;
+                    rep.failures.extend(r.failures);
+                    if n != 2 {
+                        rep.fail("records separated by a long run of terminators are not both parsed", vec![format!("# `o.A -> a:` + {} terminator bytes + `    int f -> g`", run)], format!("{} records", n));
+                    }
+                }
+                Err(_) => rep.fail("iteration over a long run of terminators panicked", vec![format!("# {} terminator bytes", run)], String::new()),
+            }
+            for f in rep.failures.iter_mut().skip(before) {
+                f.ops = vec![format!("# A = `o.A -> a:` + {} bytes of {:?} + `    int f -> g`, B = `o.B -> b:`", run, String::from_utf8_lossy(t))];
+                f.detail.truncate(300);
+            }
+            rep.count("long_terminator_runs");
+        }
+    }
     rep
 }
 
@@ -712,7 +776,122 @@ pub fn oracle_c08(rng: &mut Rng, tier: &str) -> Report {
             }
         }
     }
+    deep_chain_oracle(&mut rep, if thorough(tier) { &[300_000, 1_000_000] } else { &[300_000] }, false);
     rep
+}
+
+/// Cause chains of several hundred thousand levels, on a thread with the default 2 MiB stack of
+/// a spawned thread: parse, typed remap (mapper and cache), print, clone, compare with the text
+/// API, drop.  A stack overflow aborts the process; the driver reports that as a violation.
+pub fn deep_chain_oracle(rep: &mut Report, depths: &[usize], drop_probe: bool) {
+    for &depth in depths {
+        let h = std::thread::Builder::new().stack_size(2 << 20).spawn(move || {
+            let mut fails: Vec<String> = Vec::new();
+            let mapping: &'static [u8] = b"o.Small -> small:\n    1:1:void x():7:7 -> a\no.A -> a:\n";
+            let mapper = proto::cur::mapper(mapping, false);
+            let cbytes = proto::aligned_static(&proto::cur::write_cache(mapping));
+            let cache = ProguardCache::parse(cbytes).unwrap();
+            let mut t = String::with_capacity(depth * 24 + 64);
+            t.push_str("a: top\n    at a.m(F:1)\n");
+            for i in 0..depth {
+                t.push_str(if i % 2 == 0 { "Caused by: small: x\n    at small.a(F:1)\n" } else { "Caused by: zz.U\n" });
+            }
+            let Some(parsed) = StackTrace::try_parse(t.as_bytes()) else {
+                return vec!["a deep trace does not parse".to_string()];
+            };
+            let mut d = 0usize;
+            let mut cur = Some(&parsed);
+            while let Some(c) = cur {
+                d += 1;
+                cur = c.cause();
+            }
+            if d != depth + 1 {
+                fails.push(format!("parsed depth {} instead of {}", d, depth + 1));
+            }
+            let printed = parsed.to_string();
+            if printed != t {
+                fails.push("print(parse(t)) != t for a canonical deep trace".to_string());
+            }
+            let copy = parsed.clone();
+            if copy != parsed {
+                fails.push("clone differs".to_string());
+            }
+            let tm = mapper.remap_stacktrace_typed(&parsed);
+            let tc = cache.remap_stacktrace_typed(&parsed);
+            let text = mapper.remap_stacktrace(&t);
+            let textc = cache.remap_stacktrace(&t);
+            if tm != tc {
+                fails.push("typed remap: mapper and cache differ".to_string());
+            }
+            match (text, textc) {
+                (Ok(a), Ok(b)) => {
+                    if a != b {
+                        fails.push("text remap: mapper and cache differ".to_string());
+                    }
+                    if tm.to_string() != a {
+                        fails.push("print(typed remap) != text remap".to_string());
+                    }
+                    if !a.contains("Caused by: o.Small: x\n    at o.Small.x(F:7)\n") {
+                        fails.push("the deep levels were not remapped".to_string());
+                    }
+                }
+                _ => fails.push("text remap failed".to_string()),
+            }
+            // (dropping such a chain is the subject of the separate `dropprobe`: known finding F9)
+            std::mem::forget(tm);
+            std::mem::forget(tc);
+            std::mem::forget(copy);
+            std::mem::forget(parsed);
+            fails
+        });
+        rep.checks += 1;
+        match h.map(|h| h.join()) {
+            Ok(Ok(fails)) => {
+                if fails.is_empty() {
+                    rep.nontrivial += 1;
+                }
+                for f in fails {
+                    rep.fail(&format!("cause chain of {} levels: {}", depth, f), vec![format!("# trace `a: top / at a.m(F:1)` followed by {} levels alternating `Caused by: small: x / at small.a(F:1)` and `Caused by: zz.U`", depth)], String::new());
+                }
+            }
+            _ => rep.fail(&format!("cause chain of {} levels: panic", depth), vec![format!("# {} levels", depth)], String::new()),
+        }
+        rep.count("deep_cause_chains");
+    }
+    if !drop_probe {
+        return;
+    }
+    // dropping a deep chain, in a child process (an overflow there kills only the child)
+    let depth = 300_000usize;
+    rep.checks += 1;
+    if let Ok(exe) = std::env::current_exe() {
+        match std::process::Command::new(exe).args(["dropprobe", &depth.to_string()]).stdout(std::process::Stdio::null()).stderr(std::process::Stdio::null()).status() {
+            Ok(st) if st.success() => rep.nontrivial += 1,
+            Ok(st) => rep.fail(
+                "dropping a parsed StackTrace with very many nested causes aborts the process (stack overflow in the recursive drop of the cause chain)",
+                vec![format!("DROPPROBE {}", depth)],
+                format!("child exit status: {:?}", st),
+            ),
+            Err(_) => {}
+        }
+    }
+}
+
+/// `pgh dropprobe <depth>`: parse a trace with `depth` nested causes on a 2 MiB thread and drop it
+pub fn drop_probe(depth: usize) {
+    let h = std::thread::Builder::new().stack_size(2 << 20).spawn(move || {
+        let mut t = String::with_capacity(depth * 16 + 32);
+        t.push_str("a: top\n");
+        for _ in 0..depth {
+            t.push_str("Caused by: b: x\n");
+        }
+        let parsed = StackTrace::try_parse(t.as_bytes());
+        let ok = parsed.is_some();
+        drop(parsed);
+        ok
+    }).unwrap();
+    let ok = h.join().unwrap_or(false);
+    std::process::exit(if ok { 0 } else { 3 });
 }
 
 // ------------------------------------------------------------------ C10: cross-release reading
@@ -1222,9 +1401,16 @@ impl Write for ScriptSink {
             Some((i, a)) if i == idx => a,
             _ => Act::Take(self.chunk),
         };
+        if self.accepted.len() > proto::SINK_RUNAWAY_LIMIT {
+            self.failed = true;
+            return Err(io::Error::new(io::ErrorKind::Other, "runaway writer"));
+        }
         match act {
             Act::Take(k) => {
                 let n = k.min(buf.len());
+                if n == 0 && !buf.is_empty() {
+                    self.failed = true; // `Ok(0)` for a non-empty buffer: the sink refuses (write_all => WriteZero)
+                }
                 self.accepted.extend_from_slice(&buf[..n]);
                 Ok(n)
             }
@@ -1258,6 +1444,9 @@ impl Write for ScriptSink {
                     if left == 0 {
                         break;
                     }
+                }
+                if total == 0 && bufs.iter().any(|b| !b.is_empty()) {
+                    self.failed = true;
                 }
                 Ok(total)
             }
@@ -1366,7 +1555,7 @@ pub fn oracle_c15(rng: &mut Rng, tier: &str) -> Report {
         let _ = ProguardCache::write(&mapping, &mut probe);
         let ncalls = probe.calls;
         for idx in 0..ncalls + 1 {
-            for act in [Act::Take(1), Act::Take(3), Act::Fail, Act::Interrupted] {
+            for act in [Act::Take(1), Act::Take(3), Act::Take(0), Act::Fail, Act::Interrupted] {
                 scripts.push((usize::MAX, Some((idx, act))));
             }
         }
@@ -1642,6 +1831,11 @@ pub fn run_oracle(prop: &str, tier: &str, seed: u64) -> Option<Report> {
         "C06" => oracle_c06(&mut rng, tier),
         "C07" => oracle_c07(&mut rng, tier),
         "C08" => oracle_c08(&mut rng, tier),
+        "C13" => {
+            let mut rep = Report::new();
+            deep_chain_oracle(&mut rep, if thorough(tier) { &[300_000, 1_000_000] } else { &[300_000] }, true);
+            rep
+        }
         "C10" => oracle_c10(&mut rng, tier),
         "C11" => oracle_c11(&mut rng, tier),
         "C14" => oracle_c14(seed, tier),
